@@ -14,7 +14,8 @@
    Decode on sets with composite glyphs, incl. Fix;Fix on one glyph with two maps, Fix;Components,
    Fix;Encode); the harness replays them and re-observes after every call the whole glyph set, all
    Components() lists and all earlier FixComponents results (GlyfTrace: nothing the caller holds changes).
-3. V: glyph sets built through the library API (up to > 128 KiB, thorough: 65535 glyphs) go through
+3. V: glyph sets built through the library API (up to > 128 KiB; exactly 65534 and 65535 glyphs; glyf tables
+   beyond 2^24 bytes in digest mode, where TLC recomputes every offset from the raw loca bytes) go through
    Glyphs.Encode -> glyf.Decode -> per-glyph calls, recorded the same way.
 Every recorded event is judged by TLC against GlyfTrace.tla, which decodes the logged bytes with the
 spec's decoder.  A failed check (BAD line) is re-recorded in isolation and re-validated before it counts.
@@ -52,6 +53,7 @@ _STATS = re.compile(r'^<<"STATS", (\d+), (\d+), (\d+)>>')
 
 CALLS = {"decode": "glyf.Decode", "encode": "Glyphs.Encode", "simple": "SimpleGlyph.Decode",
          "comps": "Glyph.Components", "fix": "Glyph.FixComponents",
+         "decodebig": "glyf.Decode", "encodebig": "Glyphs.Encode",
          "observe": "state after a call history", "recheck": "source glyph after Glyph.FixComponents"}
 
 
@@ -138,7 +140,11 @@ def _record_and_validate(ctx, binp, mode, cases, d, name, timeout):
     layout = []      # what Glyphs.Encode chose for the large inputs (measured, for the evidence file)
     with open(tpath) as f:
         for line in f:
-            if len(line) > 100000 and '"ev":"encode"' in line[:200]:
+            if '"ev":"encodebig"' in line[:200]:
+                e = json.loads(line)
+                layout.append({"case": e["case"], "glyf_bytes": e["glyflen"], "loca_version": e["fmt"],
+                               "glyphs": len(e["loca"]) // 4 - 1})
+            elif len(line) > 100000 and '"ev":"encode"' in line[:200]:
                 e = json.loads(line)
                 layout.append({"case": e["case"], "glyf_bytes": len(e["glyf"]), "loca_version": e["fmt"],
                                "glyphs": len(e["loca"]) // (4 if e["fmt"] == 1 else 2) - 1})
@@ -179,7 +185,7 @@ def _replay_case(ctx, case, expect=None):
         sigs.append(sg)
         if expect is not None and sg != expect:
             continue
-        small = {k: v for k, v in e.items() if k not in ("glyphs", "glyf", "loca", "glyph", "results")}
+        small = {k: v for k, v in e.items() if k not in ("glyphs", "glyf", "loca", "glyph", "results", "rle")}
         if case.get("ops"):
             small["history"] = [o["op"] + (str(o["i"]) if o["i"] else "") for o in case["ops"]]
         size = len(case.get("glyf") or [])
@@ -208,6 +214,13 @@ def _lib_cases(ctx):
         {"n": 25, "target": 131070, "seed": s + 10, "nilevery": 0, "compodds": 6, "zerobare": 0},
         {"n": 25, "target": 131072, "seed": s + 11, "nilevery": 0, "compodds": 6, "zerobare": 0},
         {"n": 2800, "target": 0, "seed": s + 12, "nilevery": 0, "compodds": 9, "zerobare": 0},
+        # the largest legal glyph counts (mostly empty glyphs; logged run-length encoded)
+        {"n": 65534, "target": 0, "seed": s + 13, "nilevery": 0, "compodds": 4, "zerobare": 0, "sparse": 7},
+        {"n": 65535, "target": 0, "seed": s + 14, "nilevery": 0, "compodds": 4, "zerobare": 0, "sparse": 7},
+        # every byte of the long loca entry: glyf tables beyond 2^20 and 2^24 bytes (digest mode: only the
+        # raw loca bytes are logged)
+        {"n": 5, "target": 0, "seed": s + 15, "nilevery": 0, "compodds": 0, "zerobare": 0, "huge": 18},
+        {"n": 12, "target": 0, "seed": s + 16, "nilevery": 3, "compodds": 0, "zerobare": 0, "huge": 257},
     ]
     if not ctx.quick():
         k = 20
@@ -219,7 +232,15 @@ def _lib_cases(ctx):
         for t in (65532, 65538, 131068, 131074, 200000, 262144):
             k += 1
             specs.append({"n": 10 + k, "target": t, "seed": s + k, "nilevery": 0, "compodds": 5, "zerobare": 0})
-        specs.append({"n": 65535, "target": 0, "seed": s + 99, "nilevery": 24, "compodds": 6, "zerobare": 0})
+        specs.append({"n": 65535, "target": 0, "seed": s + 99, "nilevery": 0, "compodds": 3, "zerobare": 0,
+                      "sparse": 40})
+        specs.append({"n": 65533, "target": 0, "seed": s + 98, "nilevery": 0, "compodds": 3, "zerobare": 0,
+                      "sparse": 3})
+        specs.append({"n": 300, "target": 0, "seed": s + 97, "nilevery": 2, "compodds": 0, "zerobare": 0,
+                      "huge": 520})
+    for sp in specs:
+        sp.setdefault("sparse", 0)
+        sp.setdefault("huge", 0)
     return [{"id": 900000 + i, "src": "lib", "lib": sp} for i, sp in enumerate(specs)]
 
 
@@ -286,7 +307,10 @@ def run(ctx):
         "call histories": "3 glyph sets with composite glyphs: Decode, then every sequence of %d calls out of "
                           "Fix(i, 2 maps) / Put / Components(i) / Encode / Decode; everything re-observed after "
                           "every call" % ctx.pick(3, 4),
-        "loca": "size vectors of length <= %d over {0,2,12,65522,65534,65536,131058,131070,131072}" % ctx.pick(4, 5),
+        "loca": "size vectors of length <= %d over {0,2,12,65522,65534,65536,131058,131070,131072,16777204,"
+                "16777216}" % ctx.pick(4, 5),
+        "library-built sets": "incl. exactly 65534 and 65535 glyphs and glyf tables of about 1.2 MB and 16.8 MB "
+                              "(above 2^24: every byte of the long loca entry is non-zero somewhere)",
         "simple glyphs": "all 32 flag bytes x {1,1r,2,2r,3r,256r} runs, 1 run exhaustive with every finish choice"
                          + ("" if quick else ", 2 runs exhaustive (one finish per shape)")
                          + ", longer run lists by simulation",
@@ -321,8 +345,10 @@ def run(ctx):
     def weight(c):
         if c["src"] == "tlc":
             return 400 + len(c["glyf"]) * 6 * (1 + len(c.get("ops") or []))
+        if c["lib"]["sparse"]:
+            return 20000 + c["lib"]["n"] * 30
         n = c["lib"]["n"] // (c["lib"]["nilevery"] or 1)
-        return 20000 + n * 1200 + c["lib"]["target"] * 12
+        return 20000 + n * 1200 + c["lib"]["target"] * 12 + c["lib"]["huge"] * 100
     par = max(2, min(8, ctx.workers))
     nchunks = max(par, (len(cases) + 3499) // 3500)
     chunks = [[] for _ in range(nchunks)]
